@@ -74,7 +74,8 @@ def run(ctx):
         ctx.absorb(lres, llines, sample=1)
         reproduced = sum(1 for x in lres if not x.get('ok') and pattern in (x.get('patterns') or []))
         leads[pattern] = {'tlc_trace_len': len(lead.trace), 'replayed_concretisations': len(lcases), 'reproduced_on_real_engine': reproduced}
-        if reproduced == 0 and not any(x.get('kind') == 'infra' for x in lres):
+        # (a lead replay that fails in some OTHER way is a divergence of its own: it was absorbed above and is reported)
+        if reproduced == 0 and all(x.get('ok') for x in lres):
             raise vlib.Inconclusive(f'the TLC counterexample of {inv} ({cfg}) does not reproduce on the real engine with pattern {pattern}: '
                                     'the model is wrong about the code (or the code was repaired: update TSMEngineBackup.tla and its cfgs)')
     ctx.extra_cov['leads'] = leads
